@@ -52,7 +52,11 @@ fn go<'a, T: IteTable<'a, BddPtr<'a>> + Default>(
     };
     let mut interesting = 0usize;
     for (i, op) in case.ops.iter().enumerate() {
-        match run.step(op) {
+        let stepped = run.step(op);
+        if let Some(msg) = run.label_fault.take() {
+            return fail("C01/run-time-variable-not-fresh", format!("op #{}: {}", i, msg));
+        }
+        match stepped {
             None => st.bump("op_not_applicable"),
             Some(out) => {
                 st.bump(&format!("op.{}", out.kind));
